@@ -19,6 +19,9 @@ From Coq Require Import List NArith ZArith.
 From Coq.Strings Require Import Byte.
 From SP Require Import Bytes Params Msgpack Crypto Errors Packets Chunker Rand Verify Encrypt Decrypt
      SignAuthProofs EncryptProofs EncAuthProofs EncAuthLocated.
+From SP Require Import Nonce GoLang GoAst GoAstProofs GoAstProofs2.
+From Coq Require String.
+Import String.StringSyntax.
 Import ListNotations.
 Open Scope N_scope.
 
@@ -55,6 +58,85 @@ Theorem C02_all_at_once (vd : validator) (senders : option (list bytes)) (input 
 Proof. exact (open_authentic_all_located c Hc s_sk r_sk vd senders input m pt L). Qed.
 End C02.
 
+(* SOURCE TIE: the terms f_saltpack_* are generated on every run from the Go syntax trees of
+   /repo (harness/cmd/gen/goast.go); under the Go semantics of model/GoLang.v, with the standard
+   library / NaCl primitives interpreted by ext_prims over the crypto record and calls to other
+   saltpack functions interpreted by the model (each of those has its own such theorem), they
+   compute exactly what the model says, for ALL arguments and EVERY instance of the primitives. *)
+Theorem C02_source_decrypt_processBlock (c : crypto) (st : dec_state) (n : N) (auths : list bytes) (ct : bytes) (final : bool) :
+  (n < 18446744073709551615)%N \/ (n = 18446744073709551615)%N ->
+  (vmaj (ds_version st) = 1 \/ vmaj (ds_version st) = 2)%Z ->
+  (ds_position st < 9223372036854775808)%N ->
+  g_block_result (run_func (ext_model c) f_saltpack_decryptStream_processBlock
+                   [g_dec_state st; VBytes ct; VList (map VBytes auths); VBool final; VInt (Z.of_N n + 1)])
+  = dec_block_step c st n auths ct final.
+Proof. exact (go_decrypt_processBlock c st n auths ct final). Qed.
+
+(* ... and the model's receiver loop is that step followed by the chunk-state check *)
+Theorem C02_source_loop_uses_step (c : crypto) (fuel : nat) (st : dec_state) (n : N) (input : bytes) (acc : list bytes) :
+  decrypt_loop c (S fuel) st n input acc =
+  match read_packet input with
+  | Err e => mkOut (rev_append acc []) e
+  | Ok (m, rest) =>
+    let v := ds_version st in
+    if negb ((vmaj v =? 1)%Z || (vmaj v =? 2)%Z) then mkOut (rev_append acc []) (Panic 9)
+    else match of_dres (view_enc_block v m) with
+         | Err e => mkOut (rev_append acc []) e
+         | Ok (auths, ct, final) =>
+           match dec_block_step c st n auths ct final with
+           | Err e => mkOut (rev_append acc []) e
+           | Ok chunk =>
+             match check_chunk_state v (List.length chunk) n final with
+             | Err e => mkOut (rev_append acc []) e
+             | Ok _ => if final then mkOut (rev_append (chunk :: acc) []) (assert_end_of_stream rest)
+                       else decrypt_loop c fuel st (n + 1) rest (chunk :: acc)
+             end
+           end
+         end
+  end.
+Proof. exact (decrypt_loop_step c fuel st n input acc). Qed.
+
+Theorem C02_source_computePayloadHash (c : crypto) (v : version) (hh nonce ct : bytes) (final : bool) :
+  (forall x, List.length (sha512 c x) = 64%nat) ->
+  run_func (ext_prims c) f_saltpack_computePayloadHash [g_version v; VBytes hh; VBytes nonce; VBytes ct; VBool final]
+  = ret_bytes (payload_hash c v hh nonce ct final).
+Proof. exact (go_computePayloadHash c v hh nonce ct final). Qed.
+
+Theorem C02_source_computePayloadAuthenticator (c : crypto) (k ph : bytes) :
+  (32 <= List.length (hmac512 c k ph))%nat ->
+  run_func (ext_prims c) f_saltpack_computePayloadAuthenticator [VBytes k; VBytes ph]
+  = ORet [VBytes (payload_authenticator c k ph)].
+Proof. exact (go_computePayloadAuthenticator c k ph). Qed.
+
+Theorem C02_source_computeMACKeyReceiver (c : crypto) (v : version) (index : N) (sk spk epk hh : bytes) :
+  run_func (ext_model c) f_saltpack_computeMACKeyReceiver
+           [g_version v; VInt (Z.of_N index); VBytes sk; VBytes spk; VBytes epk; VBytes hh]
+  = ret_bytes (mac_key_receiver c v index sk spk epk hh).
+Proof. exact (go_computeMACKeyReceiver c v index sk spk epk hh). Qed.
+
+Theorem C02_source_computeMACKeySingle (c : crypto) (sk pk nonce : bytes) :
+  (48 <= List.length (box_seal c sk pk nonce (zeros 32)))%nat ->
+  run_func (ext_prims c) f_saltpack_computeMACKeySingle [VBytes sk; VBytes pk; VBytes nonce]
+  = ORet [VBytes (mac_key_single c sk pk nonce)].
+Proof. exact (go_computeMACKeySingle c sk pk nonce). Qed.
+
+Theorem C02_source_nonces (c : crypto) (hh : bytes) (eph : bool) (i : N) :
+  (24 <= List.length hh)%nat -> (i < 18446744073709551616)%N ->
+  run_func (ext_prims c) f_saltpack_nonceForChunkSecretBox [VInt (Z.of_N i)] = ORet [VBytes (nonce_chunk_secretbox i)] /\
+  run_func (ext_prims c) f_saltpack_nonceForMACKeyBoxV2 [VBytes hh; VBool eph; VInt (Z.of_N i)] = ORet [VBytes (nonce_mac_key_box_v2 hh eph i)] /\
+  run_func (ext_prims c) f_saltpack_nonceForMACKeyBoxV1 [VBytes hh] = ORet [VBytes (nonce_mac_key_box_v1 hh)].
+Proof.
+  intros Hh Hi. split; [exact (go_nonceForChunkSecretBox c i Hi)|].
+  split; [apply (go_nonceForMACKeyBoxV2 c hh eph i); [apply (PeanoNat.Nat.le_trans _ 24); [repeat constructor|exact Hh]|exact Hi]|exact (go_nonceForMACKeyBoxV1 c hh Hh)].
+Qed.
+
+Print Assumptions C02_source_decrypt_processBlock.
+Print Assumptions C02_source_loop_uses_step.
+Print Assumptions C02_source_computePayloadHash.
+Print Assumptions C02_source_computePayloadAuthenticator.
+Print Assumptions C02_source_computeMACKeyReceiver.
+Print Assumptions C02_source_computeMACKeySingle.
+Print Assumptions C02_source_nonces.
 Print Assumptions C02_authentic.
 Print Assumptions C02_all_at_once.
 
